@@ -485,7 +485,7 @@ impl C06 {
         let mut out = Vec::new();
         for _ in 0..k {
             let fmt = *r.pick(&["single-line-summary", "json", "yaml", "junit"]);
-            if r.chance(1, 4) {
+            if r.chance(1, 3) {
                 let mut argv = sv(&["cfn-guard", "test", "--dir", "@/dl", "-o", fmt]);
                 if r.chance(1, 2) {
                     argv.push((*r.pick(&["-a", "-m"])).to_string());
